@@ -1,48 +1,68 @@
-import J5V.Bcl.FmtDiffs
-import J5V.Bcl.DiffProofs
+import J5V.Bcl.FmtDiffProofs
+import J5V.Generated.BcltokensFacts
 /-!
 # C19 — editor format edits are well-formed and equal the formatter
 
-Only property theorems, full statements and non-vacuity examples.
-Models: `J5V.Bcl.Diff` (`fmtDiffs`, `mergeFrags`, `rangeLines`, `applyEdits`), `J5V.Bcl.FmtDiffs`
-(`fmtDiffsSrc`, `fmtSrc`, `fragEdits`); lemmas: `J5V.Bcl.DiffProofs`.
+Only property theorems (+ non-vacuity examples, + obligations over regenerated source facts).
+Models: `J5V.Bcl.Diff` (`fmtDiffs` = merge pass + edit loop, `rangeLines`, `gapNeeded`, `applyEdits`),
+`J5V.Bcl.FmtDiffs` (`fmtDiffsSrc`, `fmtSrc`, `fragEdits`); lemmas: `DiffProofs`, `FmtDiffProofs`
+(which rests on the parser position invariants of C11 and on `[]rune(string)` keeping line structure).
+All statements hold for every classifier and every byte string; no bound.
 -/
 namespace J5V.Props.C19
 open J5V.Go J5V.Bcl
 
 /-- `FragRangesWF`: the fragments the formatter collects for `bytes` have line ranges with
-`from < to ≤ lineCount`, each starting no earlier than the last line of the previous one
-(`RawWF`).  A decidable predicate of the source. -/
+`from < to ≤ lineCount`, each starting no earlier than the last line of the previous one. -/
 def FragRangesWF (cls : Cls) (bytes : List Nat) : Prop :=
   ∀ frags, collectFragments cls (decodeRunes bytes) = .ok frags →
     RawWF (splitLines bytes).length 0 (fragEdits cls frags)
 
-/-- no panic (and no error) in `FmtDiffs` whenever the formatter accepts the source (given
-well-formed fragment ranges). -/
-theorem C19_no_panic_partial (cls : Cls) (bytes : List Nat) (hwf : FragRangesWF cls bytes)
-    (hfmt : ∃ out, fmtSrc cls bytes = .ok out) : ∃ es, fmtDiffsSrc cls bytes = .ok es := by
+/-- The fragment ranges are well-formed for **every** source: consequence of the parser's position
+invariants (every fragment has `start ≤ end` inside the file, fragments are in source order). -/
+theorem C19_frag_ranges_wf (cls : Cls) (bytes : List Nat) : FragRangesWF cls bytes :=
+  fun frags h => fragEdits_rawWF cls bytes frags h
+
+/-- `FmtDiffs` never panics, on any input (no `lines[from:to]` out of range, no `lines[lastEnd]` out
+of range, no lexer / walker panic). -/
+theorem C19_never_panics (cls : Cls) (bytes : List Nat) (s : String) :
+    fmtDiffsSrc cls bytes ≠ .panic s := by
+  unfold fmtDiffsSrc
+  have hc := collectFragments_spec (fun _ => True) cls (decodeRunes bytes) (fun _ _ => trivial)
+  cases h : collectFragments cls (decodeRunes bytes) with
+  | panic w => rw [h] at hc; exact hc.elim
+  | err => simp
+  | ok frags =>
+    obtain ⟨es, he, _⟩ := fmtDiffs_spec (splitLines bytes) (fragEdits cls frags)
+      (C19_frag_ranges_wf cls bytes frags h)
+    simp [he]
+
+/-- For every source the formatter accepts, the list of line edits is computed without failure. -/
+theorem C19_no_panic (cls : Cls) (bytes : List Nat) (hfmt : ∃ out, fmtSrc cls bytes = .ok out) :
+    ∃ es, fmtDiffsSrc cls bytes = .ok es := by
   unfold fmtDiffsSrc
   unfold fmtSrc fmt at hfmt
   cases hc : collectFragments cls (decodeRunes bytes) with
   | panic s => rw [hc] at hfmt; obtain ⟨_, h⟩ := hfmt; cases h
   | err => rw [hc] at hfmt; obtain ⟨_, h⟩ := hfmt; cases h
   | ok frags =>
-    obtain ⟨es, he, _⟩ := fmtDiffs_spec (splitLines bytes) (fragEdits cls frags) (hwf frags hc)
+    obtain ⟨es, he, _⟩ := fmtDiffs_spec (splitLines bytes) (fragEdits cls frags)
+      (C19_frag_ranges_wf cls bytes frags hc)
     simp only [he]
     exact ⟨es, rfl⟩
 
-/-- the edits are ascending, non-overlapping and within `0 ≤ from ≤ to ≤ lineCount`
+/-- The edits are in ascending order, do not overlap, and satisfy `start ≤ end ≤ number of lines`
 (`EditsWF n 0 es`: each edit starts at or after the end of the previous one, `from ≤ to ≤ n`). -/
-theorem C19_wellformed_partial (cls : Cls) (bytes : List Nat) (hwf : FragRangesWF cls bytes)
-    (es : List Edit) (h : fmtDiffsSrc cls bytes = .ok es) :
-    EditsWF (splitLines bytes).length 0 es := by
+theorem C19_wellformed (cls : Cls) (bytes : List Nat) (es : List Edit)
+    (h : fmtDiffsSrc cls bytes = .ok es) : EditsWF (splitLines bytes).length 0 es := by
   unfold fmtDiffsSrc at h
   cases hc : collectFragments cls (decodeRunes bytes) with
   | panic s => rw [hc] at h; cases h
   | err => rw [hc] at h; cases h
   | ok frags =>
     rw [hc] at h
-    obtain ⟨es', he, hw⟩ := fmtDiffs_spec (splitLines bytes) (fragEdits cls frags) (hwf frags hc)
+    obtain ⟨es', he, hw⟩ := fmtDiffs_spec (splitLines bytes) (fragEdits cls frags)
+      (C19_frag_ranges_wf cls bytes frags hc)
     simp only [he] at h
     cases h
     exact hw
@@ -55,27 +75,31 @@ theorem C19_fmtDiffs_wellformed (lines : List (List Nat)) (frags : List Edit)
   fmtDiffs_spec lines frags h
 
 /-! ## Non-vacuity: a realistic source (leading blank lines, double gap, block, trailing comment,
-two statements on one line) meets the hypothesis, is accepted by the formatter and produces edits -/
+header with trailing comment below line 1, two statements on one line) is accepted by the formatter
+and produces edits -/
 
-def sample : List Nat := ofAscii "\n\na  =  1\n\n\n  b {\nc = \"x\" // k\n} d = 2\n"
+def sample : List Nat :=
+  ofAscii "\n\na  =  1\n\n\n  b {\nc = \"x\" // k\nd e // t\n \nf = 2\n} g = 2\n"
 
-/-- Boolean form of `FragRangesWF` for evaluation -/
-def fragRangesOK (cls : Cls) (bytes : List Nat) : Bool :=
-  match collectFragments cls (decodeRunes bytes) with
-  | .ok frags => decide (RawWF (splitLines bytes).length 0 (fragEdits cls frags))
-  | _ => true
-
-theorem fragRangesOK_sound (cls : Cls) (bytes : List Nat) (h : fragRangesOK cls bytes = true) :
-    FragRangesWF cls bytes := by
-  intro frags hc
-  unfold fragRangesOK at h
-  rw [hc] at h
-  exact of_decide_eq_true h
-
-example : FragRangesWF asciiCls sample := fragRangesOK_sound _ _ (by decide +kernel)
 example : (match fmtSrc asciiCls sample with | .ok _ => true | _ => false) = true := by
   decide +kernel
-example : (match fmtDiffsSrc asciiCls sample with | .ok es => decide (es.length ≥ 3) | _ => false)
+example : (match fmtDiffsSrc asciiCls sample with | .ok es => decide (es.length ≥ 4) | _ => false)
     = true := by decide +kernel
+
+end J5V.Props.C19
+
+/-! ## Obligations over facts regenerated from the current source (`extract bcltokens`) -/
+namespace J5V.Props.C19
+open J5V.Generated.Bcltokens
+
+/-- the conditions of `FmtDiffs` (merge test, leading edit, gap rule, changed test) are the modelled ones -/
+theorem C19_src_fmtDiffs_conds : fmtDiffsConds =
+    ["err != nil",
+     "last := len(merged) - 1; last >= 0 && diff.FromLine < merged[last].ToLine",
+     "idx == 0", "diff.FromLine > 0",
+     "diff.FromLine > lastEnd+1 || (diff.FromLine == lastEnd+1 && lines.lines[lastEnd] != \"\")",
+     "existing != diff.NewText"] := by decide
+theorem C19_src_rangeLines : rangeLinesBody = "{ return strings.Join(ls.lines[from:to], \"\\n\") + \"\\n\" }" := by
+  decide
 
 end J5V.Props.C19
